@@ -305,8 +305,64 @@ class Program:
                 self.fns[key] = g
                 self.crates[key[0]]["fns"][key[1]] = g.j
                 n += getattr(g, "desugared", 1)
+                # closures whose only use was the combinator call now live in the parent's body: drop the dead originals
+                for cname in self._dead_closures(g):
+                    ck = (key[0], cname)
+                    if ck in self.fns and not any(k2 != ck and k2[1].startswith(cname + "::{closure#") for k2 in self.fns):
+                        del self.fns[ck]
+                        self.crates[key[0]]["fns"].pop(cname, None)
         self.desugared = n
         return n
+
+    @staticmethod
+    def _dead_closures(g):
+        """closures created in g that are never handed to a call (directly or through moves / borrows of the closure value)"""
+        created = {}
+        for blk in g.blocks:
+            for s in blk.stmts:
+                rv = s.get("rv") if isinstance(s, dict) and "a" in s else None
+                if rv and rv.get("agg") == "closure" and not s["a"].get("p"):
+                    created[s["a"]["l"]] = rv["closure"]
+        dead = []
+        for l0, cname in created.items():
+            alias = {l0}
+            changed = True
+            while changed:
+                changed = False
+                for blk in g.blocks:
+                    for s in blk.stmts:
+                        if "a" not in s or s["a"].get("p"):
+                            continue
+                        rv = s["rv"]
+                        src = None
+                        if "use" in rv:
+                            src = rv["use"].get("mv") or rv["use"].get("cp")
+                        elif "ref" in rv:
+                            src = rv["ref"]
+                        if src is not None and not (src.get("p") or []) and src["l"] in alias and s["a"]["l"] not in alias:
+                            alias.add(s["a"]["l"])
+                            changed = True
+            used = False
+            for blk in g.blocks:
+                c = blk.term.get("call") if isinstance(blk.term, dict) else None
+                if c is None:
+                    continue
+                for a in c["args"]:
+                    pj = a.get("mv") or a.get("cp")
+                    if pj is not None and pj["l"] in alias and not (pj.get("p") or []):
+                        used = True
+            # stored into an aggregate / field?  then it may escape: keep
+            for blk in g.blocks:
+                for s in blk.stmts:
+                    rv = s.get("rv") if "a" in s else None
+                    if rv and "fields" in rv and rv.get("agg") != "closure":
+                        for o in rv["fields"]:
+                            pj = o.get("mv") or o.get("cp")
+                            if pj is not None and pj["l"] in alias:
+                                used = True
+            if not used:
+                dead.append(cname)
+        return dead
 
     def fn(self, crate, name):
         """lookup by exact def-path, or by def-path with generic segments (`::<'a>`) stripped"""
